@@ -276,7 +276,7 @@ def run_case(case, ctx, objs=None):
                     ctx.check('pointwise_model', ok, lambda: '%s with a zero scalar denominator = %r (expected NaN everywhere)' % (what, got))
                 else:
                     compare(ctx, got, exp, what)
-                if op == 'div' and hasattr(got, 'values'):
+                if op == 'div' and hasattr(got, 'values') and not case.get('inf_cells'):
                     ctx.check('div_no_inf', not bool(np.any(np.isinf(np.asarray(got.values, dtype=float)))), lambda: '%s produced +-inf: %r' % (what, got))
                 if op in ('add', 'mul'):
                     st2, got2 = ctx.call(FN[op], b, a, **kw)
@@ -457,6 +457,14 @@ def gen_case(rng):
             else:
                 o['v'] = abs(o['v'])
     case = {'op': op, 'operands': operands, 'join': join, 'columns': columns, 'as_list': rng.random() < 0.6}
+    if op == 'div' and len(operands) == 2 and operands[0]['k'] != 'scalar' and rng.random() < 0.3:
+        # infinite observations in the numerator: inf / 2 is inf (only a ZERO denominator yields NaN)
+        o = operands[0]
+        if o['k'] == 'series':
+            o['v'] = [(rng.choice(['inf', '-inf']) if (v is not None and rng.random() < 0.3) else v) for v in o['v']]
+        else:
+            o['cols'] = [[(rng.choice(['inf', '-inf']) if (v is not None and rng.random() < 0.3) else v) for v in c] for c in o['cols']]
+        case['inf_cells'] = True
     if len(operands) >= 3 and op in ('add', 'mul', 'min', 'max') and rng.random() < 0.3:
         case['as_list'] = 'head_list'
     if len(operands) == 2 and op in ('add', 'sub', 'mul', 'div', 'min', 'max', 'gt', 'le') and rng.random() < 0.1:
